@@ -15,7 +15,7 @@ MAP_TRACED = ("/tracklib/algo/mapping.py", "/tracklib/algo/dynamics.py")
 C06_OPS = ("dist", "dist_all", "all_pairs", "prepare", "prepared")
 C07_OPS = ("path", "path_multi", "forward", "backward")
 C10_OPS = ("map", "remap", "map_span")
-OTHER_OPS = ("add_edge", "reload", "index", "simplify", "sub_network", "set_weight", "save_prep", "load_prep", "rescale", "abs_again", "set_routing")
+OTHER_OPS = ("add_edge", "reload", "index", "simplify", "sub_network", "set_weight", "save_prep", "load_prep", "rescale", "abs_again", "set_routing", "save_index", "load_index")
 
 
 def _wchoice(r, pairs):
@@ -138,6 +138,10 @@ class NetWorld(World):
         self._netmod = _sys.modules["tracklib.core.network"]
         self._real_np = self._netmod.np
         self._netmod.np = _NumpyShim(self._real_np, self.fs)
+        # SpatialIndex.save / load pickle through the module-level name open of tracklib.core.spatial_index
+        self._simod = _sys.modules["tracklib.core.spatial_index"]
+        self._simod_open = self._simod.__dict__.get("open", None)
+        self._simod.open = self.fs.open
         # debug mode of mapOnNetwork appends to "observation.dat" in the working directory: the
         # working directory of the simulated process is /sim/cwd on the simulated disk
         import sys
@@ -150,6 +154,10 @@ class NetWorld(World):
 
     def teardown(self):
         self._netmod.np = self._real_np
+        if self._simod_open is None:
+            self._simod.__dict__.pop("open", None)
+        else:
+            self._simod.open = self._simod_open
         if self._mapping_open is None:
             self._mapping.__dict__.pop("open", None)
         else:
@@ -168,7 +176,7 @@ class NetWorld(World):
     # ------------------------------------------------ invariant after every step
     # steps after which the labels of an earlier run_routing_forward are still the ones it left
     KEEPS_LABELS = ("backward", "prepared", "set_routing", "index", "map", "remap", "map_span", "save_prep",
-                    "load_prep", "abs_again")
+                    "load_prep", "abs_again", "save_index", "load_index")
 
     def execute(self, step):
         s_ = step.get("s", 0)
@@ -230,6 +238,27 @@ class NetWorld(World):
                 if pts != e["pts"]:
                     return self.fail("C07", "network.geometry_changed", "the stored geometry of edge %s (session %d) "
                                      "changed although no step edited the network" % (e["id"], s), e["pts"], pts)
+            # per-node adjacency, in insertion order (anchored state of C06)
+            nxt = {v: [] for v in m["nodes"]}
+            prv = {v: [] for v in m["nodes"]}
+            for e in m["edges"]:
+                if e["o"] >= 0:
+                    nxt[e["s"]].append(e["id"])
+                    prv[e["t"]].append(e["id"])
+                if e["o"] <= 0:
+                    nxt[e["t"]].append(e["id"])
+                    prv[e["s"]].append(e["id"])
+            for v in m["nodes"]:
+                gn, gp = list(net.getNextEdges(v)), list(net.getPrevEdges(v))
+                if gn != nxt[v] or gp != prv[v]:
+                    return self.fail("C06", "network.structure", "edges leaving / entering node %s (session %d)"
+                                     % (v, s), [nxt[v], prv[v]], [gn, gp])
+                if not net.hasNode(v):
+                    return self.fail("C06", "network.structure", "hasNode(%r) is false for a node of the network" % (v,),
+                                     True, False)
+            if net.getNumberOfNodes() != len(m["nodes"]) or net.getNumberOfEdges() != len(m["edges"]):
+                return self.fail("C06", "network.structure", "number of nodes / edges of session %d" % s,
+                                 [len(m["nodes"]), len(m["edges"])], [net.getNumberOfNodes(), net.getNumberOfEdges()])
             for v, p in m["nodes"].items():
                 c = net.getNode(v).coord
                 if [c.getX(), c.getY()] != list(p):
@@ -354,6 +383,13 @@ class NetWorld(World):
         if m["prepared"] is None:
             pc = self.cfg.get("prep_cut")
             return {"op": "prepare", "s": s, "cut": 1e300 if pc is None else pc * self.cfg["step"]}
+        if r.random() < self.cfg.get("persist", 0):
+            st = {"op": r.choice(["save_index", "load_index"]), "s": s}
+            if r.random() < max(self.cfg["fault_rate"], 0.1):
+                k = r.choice(["open_error", "write_error", "close_error"] if st["op"] == "save_index"
+                             else ["open_error", "read_error"])
+                st["fault"] = {"kind": k, "at": r.choice([1, 1, 2, 3]), "errno": r.choice([28, 5, 13])}
+            return st
         slot = r.randrange(2)
         if (s, 1 - slot) in self.tracks and r.random() < 0.12:
             return {"op": "map_span", "s": s, "slot": slot, "noise": r.choice([1, 10, 50]),
@@ -1027,6 +1063,48 @@ class NetWorld(World):
         m["grown_since_prepare"] = True           # (only a label for the probes: the table is modelled exactly)
         self.probe("prepared_table_loaded")
         self._cmp_table(m, dict(net.DISTANCES), m["ptable"], "prepared table after load_prep")
+
+    def op_save_index(self, st):
+        """Network.exportSpatialIndex: the index is pickled to the simulated disk."""
+        net, m = self._sess(st)
+        if m["index"] is None:
+            raise Skip()
+        path = "/sim/index_%d.pkl" % st.get("s", 0)
+        self._armed(st)
+        _, exc = self.call(net.exportSpatialIndex, path)
+        fired = self._fired()
+        self.idx_files = getattr(self, "idx_files", {})
+        if exc is not None:
+            self.idx_files.pop(path, None)
+            if fired:
+                return "fault"
+            return self._unexpected("C10", exc, "exportSpatialIndex")
+        if fired:
+            self.probe("fault_swallowed_by_call")
+            self.idx_files.pop(path, None)
+            return "fault"
+        self.idx_files[path] = {"extent": m["index"]["extent"], "nedges": len(m["edges"])}
+        self.probe("spatial_index_saved")
+
+    def op_load_index(self, st):
+        """Network.importSpatialIndex of the file this session saved.  A failed load leaves the
+        index the network had; a loaded index may predate edges added since (by design: matched
+        points must still lie on real edges within the radius)."""
+        net, m = self._sess(st)
+        path = "/sim/index_%d.pkl" % st.get("s", 0)
+        f = getattr(self, "idx_files", {}).get(path)
+        if f is None or m["index"] is None:
+            raise Skip()
+        self._armed(st)
+        _, exc = self.call(net.importSpatialIndex, path)
+        fired = self._fired()
+        if exc is not None:
+            if fired:
+                self.probe("load_of_spatial_index_failed")
+                return "fault"
+            return self._unexpected("C10", exc, "importSpatialIndex")
+        m["index"] = {"extent": f["extent"]}
+        self.probe("spatial_index_loaded")
 
     def op_abs_again(self, st):
         """computeAbsCurv once more on every edge geometry (a no-op by contract)."""
